@@ -52,6 +52,8 @@ type Case struct {
 	ErrFromCompiler bool `json:"err_from_compiler,omitempty"`
 	// CLIFileRef: the CLI input is <file>#include_package_files=true instead of the workspace directory
 	CLIFileRef bool `json:"cli_file_ref,omitempty"`
+	// CLI: input kind, wrapping and --path/--exclude-path selection of a command-line case (cli_test.go)
+	CLI *CLISel `json:"cli,omitempty"`
 	// model-derived expectations (kept in the case so replay needs no generator)
 	Imports       map[string][]string `json:"imports"`        // path -> import paths (model)
 	PlantedUnused map[string][]string `json:"planted_unused"` // path -> imports planted as unused
@@ -71,6 +73,9 @@ func under(dirOrFile, path string) bool {
 
 // refTargets computes the targeted file set from the documented targeting rules.
 func refTargets(c *Case) map[string]bool {
+	if c.CLI != nil {
+		return refTargetsCLI(c)
+	}
 	t := map[string]bool{}
 	for _, m := range c.Modules {
 		spec, ok := c.Specs[m.Dir]
@@ -210,9 +215,12 @@ func buildCase(ctx context.Context, t interface{ Fatalf(string, ...any) }, c *Ca
 	return img, err, extPrefix
 }
 
-// buildCLI writes a v2 workspace and runs `buf build <dir> -o -` in-process. Only whole-module
-// targeting is expressed through the CLI here (path flags are C11's subject).
+// buildCLI writes a v2 workspace and runs `buf build <dir> -o -` in-process (error mode and replay of
+// older cases); cases with a CLISel go through buildCLISel (input kinds and path flags, cli_test.go).
 func buildCLI(ctx context.Context, t interface{ Fatalf(string, ...any) }, c *Case, tmp string) (bufimage.Image, error, string) {
+	if c.CLI != nil {
+		return buildCLISel(ctx, t, c, tmp)
+	}
 	var y strings.Builder
 	y.WriteString("version: v2\nmodules:\n")
 	for _, m := range c.Modules {
@@ -387,6 +395,15 @@ func checkImage(ctx context.Context, c *Case, img bufimage.Image) (string, strin
 		}
 	}
 	return "", ""
+}
+
+func under2(list []string, s string) bool {
+	for _, x := range list {
+		if x == s {
+			return true
+		}
+	}
+	return false
 }
 
 func publiclyReaches(c *Case, from, to string, seen map[string]bool) bool {
@@ -613,8 +630,11 @@ func classify(r *evid.Recorder, c *Case) {
 		r.Class("has-planted-unused-import")
 	}
 	r.Class("backend:" + c.Backend)
+	if c.CLI != nil {
+		classifyCLI(r, c)
+	}
 	if total >= 2 && edges >= 1 && len(targets) < total {
-		r.NonTrivial(fmt.Sprintf("%v|%v|%v", c.Files, c.Specs, c.Backend))
+		r.NonTrivial(fmt.Sprintf("%v|%v|%v|%s", c.Files, c.Specs, c.Backend, cliCanon(c)))
 	}
 }
 
@@ -626,7 +646,11 @@ func sampleOf(c *Case) map[string]any {
 		}
 	}
 	sort.Strings(paths)
-	return map[string]any{"files": paths, "imports": c.Imports, "specs": c.Specs, "backend": c.Backend}
+	out := map[string]any{"files": paths, "imports": c.Imports, "specs": c.Specs, "backend": c.Backend}
+	if c.CLI != nil {
+		out["cli"] = c.CLI
+	}
+	return out
 }
 
 func TestImage(t *testing.T) {
@@ -660,18 +684,44 @@ func runSuccess(ctx context.Context, t interface {
 	classify(r, c)
 	r.Sample(sampleOf(c))
 	if err != nil {
-		r.Fail(t, "build-failed", fmt.Sprintf("a buildable workspace failed to build: %v", err), c)
+		key := "build-failed"
+		if c.CLI != nil {
+			key += ":cli-" + c.CLI.group()
+		}
+		r.Fail(t, key, fmt.Sprintf("a buildable workspace failed to build: %v", err), c)
 		return
 	}
 	if key, msg := checkImage(ctx, c, img); key != "" {
 		if key == "harness" {
 			t.Fatalf("harness: %s", msg)
 		}
+		if c.CLI != nil {
+			// command-line cases: the input kind is part of the root-cause classifier
+			key += ":cli-" + c.CLI.group()
+			if ab := excludesAboveModules(c); len(ab) > 0 {
+				// is the image what one gets when the --exclude-path values above module directories are dropped?
+				alt := *c
+				sel := *c.CLI
+				sel.Excludes = nil
+				for _, e := range c.CLI.Excludes {
+					if !under2(ab, e) {
+						sel.Excludes = append(sel.Excludes, e)
+					}
+				}
+				alt.CLI = &sel
+				if k2, _ := checkImage(ctx, &alt, img); k2 == "" {
+					key = "exclude-path-above-module-dir-ignored"
+					msg = fmt.Sprintf("--exclude-path %v names a directory that contains whole module directories; it was silently ignored: %s", ab, msg)
+				}
+			}
+			msg = fmt.Sprintf("[%s input, strip_components=%d, subdir=%q, --path %v --exclude-path %v] %s", c.CLI.Kind, c.CLI.Strip, c.CLI.subDir(), c.CLI.Paths, c.CLI.Excludes, msg)
+		}
 		r.Fail(t, key, msg, c)
 	}
 }
 
-// TestCLI builds a sample of workspaces through `buf build -o -`.
+// TestCLI builds a sample of workspaces through `buf build <input> -o -` with a drawn input kind
+// (directory, archive, git; wrapped / #subdir / #strip_components) and --path/--exclude-path selection.
 func TestCLI(t *testing.T) {
 	r := evid.R()
 	ctx := context.Background()
@@ -681,6 +731,7 @@ func TestCLI(t *testing.T) {
 		maybeSupplyWKT(t, ws)
 		c := caseFromWorkspace(ws)
 		c.Backend = "cli"
+		genCLISel(t, c)
 		runSuccess(ctx, t, r, c)
 	})
 }
